@@ -150,3 +150,11 @@ pub fn report_stage(report: &RotoReport) -> &'static str {
         _ => "other",
     }
 }
+
+/// The Unicode predicates the lexer consults, for one character:
+/// bit 0 = `is_xid_start`, bit 1 = `is_xid_continue`, bit 2 = `is_whitespace`.
+pub fn char_flags(c: char) -> u8 {
+    (unicode_ident::is_xid_start(c) as u8)
+        | ((unicode_ident::is_xid_continue(c) as u8) << 1)
+        | ((c.is_whitespace() as u8) << 2)
+}
